@@ -109,6 +109,7 @@ Proof.
       - inversion Adv; subst. rewrite fget_fput, (path_eqb_neq _ _ Q1). reflexivity.
       - destruct (l_fault l); inversion Adv; subst; try reflexivity. rewrite fget_fdel, (path_eqb_neq _ _ Q1). reflexivity.
       - destruct (l_fault l); destruct (fget (w_fs w) (tmp l)); inversion Adv; subst; try reflexivity; rewrite fget_fput, (path_eqb_neq _ _ Q1); reflexivity.
+      - destruct (l_fault l); destruct (fget (w_fs w) (tmp l)); inversion Adv; subst; try reflexivity; rewrite fget_fput, (path_eqb_neq _ _ Q1); reflexivity.
       - inversion Adv; subst. rewrite fget_fdel, (path_eqb_neq _ _ Q1). reflexivity.
       - destruct (fget (w_fs w) (tmp l)); inversion Adv; subst; [|reflexivity].
         rewrite fget_fput, (path_eqb_neq _ _ Q2), fget_fdel, (path_eqb_neq _ _ Q1). reflexivity. }
@@ -118,6 +119,8 @@ Proof.
       destruct (l_pc l) eqn:PC; try (inversion Adv; subst; exact (IF _ _ _ Hb)).
       - inversion Adv; subst. rewrite fget_fput, NE in Hb. exact (IF _ _ _ Hb).
       - destruct (l_fault l); inversion Adv; subst; try exact (IF _ _ _ Hb). rewrite fget_fdel, NE in Hb. exact (IF _ _ _ Hb).
+      - destruct (l_fault l); destruct (fget (w_fs w) (tmp l)); inversion Adv; subst; try exact (IF _ _ _ Hb);
+          rewrite fget_fput, NE in Hb; exact (IF _ _ _ Hb).
       - destruct (l_fault l); destruct (fget (w_fs w) (tmp l)); inversion Adv; subst; try exact (IF _ _ _ Hb);
           rewrite fget_fput, NE in Hb; exact (IF _ _ _ Hb).
       - inversion Adv; subst. rewrite fget_fdel, NE in Hb. exact (IF _ _ _ Hb).
@@ -250,11 +253,11 @@ Proof.
   one_step. cbn [fst snd]. rewrite set_pc_set_pc. exact IH.
 Qed.
 
-(* ... and when there is none: fetch, temporary file, publish, load - seven boundaries *)
+(* ... and when there is none: fetch, temporary file, write, close, publish, load - eight boundaries *)
 Lemma solo_miss fs ls fetches l : fget fs (Final (l_type l) (l_release l)) = None -> l_fault l = NoFault ->
   let bytes := remote (l_type l) (l_release l) in
   let t := Temp (l_type l) (l_tmp l) in
-  solo (do_action remote (mkWorld fs ls fetches) (Spawn l)) (length ls) 7 =
+  solo (do_action remote (mkWorld fs ls fetches) (Spawn l)) (length ls) 8 =
   mkWorld (fput (fdel (fput (fput fs t []) t bytes) t) (Final (l_type l) (l_release l)) bytes)
           (ls ++ [set_pc l (PDone bytes)]) ((l_type l, l_release l) :: fetches).
 Proof.
@@ -262,6 +265,7 @@ Proof.
   one_step. rewrite F. cbn [fst snd]. rewrite set_pc_set_pc.
   one_step. rewrite HF. cbn [fst snd]. rewrite set_pc_set_pc.
   one_step. cbn [fst snd]. rewrite set_pc_set_pc.
+  one_step. rewrite HF. cbn [fst snd]. rewrite set_pc_set_pc.
   one_step. rewrite HF. cbn [fst snd]. rewrite set_pc_set_pc.
   one_step. rewrite HF. fold t. rewrite fget_fput, path_eqb_refl. cbn [fst snd]. rewrite set_pc_set_pc.
   one_step. fold t. rewrite fget_fput, path_eqb_refl. cbn [fst snd]. rewrite set_pc_set_pc.
@@ -284,7 +288,7 @@ Qed.
    running), a fresh healthy loader run alone ends with the right ontology and a complete copy *)
 Theorem recovery w l : Inv w -> l_fault l = NoFault -> ~ In (tkey l) (map tkey (w_loaders w)) ->
   let i := length (w_loaders w) in
-  let w' := solo (do_action remote w (Spawn l)) i 7 in
+  let w' := solo (do_action remote w (Spawn l)) i 8 in
   nth_error (w_loaders w') i = Some (set_pc l (PDone (remote (l_type l) (l_release l)))) /\
   fget (w_fs w') (Final (l_type l) (l_release l)) = Some (remote (l_type l) (l_release l)) /\
   Inv w'.
@@ -295,7 +299,7 @@ Proof.
   destruct w as [fs ls fetches]. cbn [w_fs w_loaders w_fetches] in *.
   destruct (fget fs (Final (l_type l) (l_release l))) as [b|] eqn:F.
   - pose proof (inv_final _ HI _ _ _ F) as E. cbn [w_fs] in E. subst b.
-    assert (E : w' = mkWorld fs (ls ++ [set_pc l (PDone (remote (l_type l) (l_release l)))]) fetches) by (exact (solo_hit fs ls fetches l _ 5 F)).
+    assert (E : w' = mkWorld fs (ls ++ [set_pc l (PDone (remote (l_type l) (l_release l)))]) fetches) by (exact (solo_hit fs ls fetches l _ 6 F)).
     rewrite E in *. cbn [w_fs w_loaders]. split; [unfold i; rewrite nth_error_app2, Nat.sub_diag by lia; reflexivity|]. split; [exact F | exact HI'].
   - assert (E : w' = mkWorld (fput (fdel (fput (fput fs (Temp (l_type l) (l_tmp l)) []) (Temp (l_type l) (l_tmp l)) (remote (l_type l) (l_release l))) (Temp (l_type l) (l_tmp l)))
                                    (Final (l_type l) (l_release l)) (remote (l_type l) (l_release l)))
